@@ -190,25 +190,30 @@ def run(ctx):
     names = sorted(f[:-4] for f in os.listdir(cpdir) if f.lower().endswith('.ucp'))
     if sorted(CODEPAGES) != names or len(names) < 40:
         raise core.MachineryError('codepage list of the package %r differs from the data directory %r' % (sorted(CODEPAGES), names))
-    cplist, tables = [], []
+    cplist = []
     for nm in names:
         rel, raw = parse_ucp(os.path.join(cpdir, nm + '.ucp'))
-        cplist.append(CP(len(cplist) + 1, nm, rel, raw, read_codepage(nm)))
-        tables.append(table(rel))
+        cplist.append(CP(0, nm, rel, raw, read_codepage(nm)))
     for nm, rel, alpha in synthetic():
-        cplist.append(CP(len(cplist) + 1, nm, rel, dict(rel), rel, alphabet=alpha))
-        tables.append(table(rel))
+        cplist.append(CP(0, nm, rel, dict(rel), rel, alphabet=alpha))
     ctx.cov['codepages'] = len(names)
     ctx.cov['double_byte_codepages'] = [c.name for c in cplist if c.dbcs and not c.alphabet]
     rng = ctx.rng
     t0 = time.time()
-    batches = []            # (name, events)
-    small = []
+    # one TLC run per batch; a batch carries only the tables of its own codepages (cp.idx = index in that batch)
+    batches = []            # (name, [tables], events)
+    small, small_tables = [], []
     for cp in cplist:
         ev = []
+        big = cp.dbcs and not cp.alphabet
+        if big:
+            cp.idx = 1
+        else:
+            small_tables.append(table(cp.rel))
+            cp.idx = len(small_tables)
         if not cp.alphabet:
             roundtrips(cp, ctx, ev, all_pairs_nobox=not ctx.quick())
-        random_conv(cp, rng, ctx.pick(1500, 12000) if cp.dbcs else ctx.pick(60, 600), ev)
+        random_conv(cp, rng, ctx.pick(400, 12000) if cp.dbcs else ctx.pick(40, 600), ev)
         if cp.alphabet:
             # exhaustive: every string over the class alphabet up to a length, one-shot + one random chunking each
             for ln in range(0, ctx.pick(4, 5) + 1):
@@ -216,39 +221,39 @@ def run(ctx):
                     data = bytes(tup)
                     cuts = sorted(rng.randint(0, ln) for _ in range(rng.choice([1, 2, ln])))
                     ev.append(conv_event(cp, rng, data, cuts, (0x0D,), rng.random() < 0.8, False))
-        if cp.dbcs and not cp.alphabet:
-            batches.append((cp.name, ev))
+        if big:
+            step = 60000
+            for i in range(0, len(ev), step):
+                batches.append(('%s.%d' % (cp.name, i // step), [table(cp.rel)], ev[i:i + step], cp))
         else:
-            small += ev
-    batches.append(('single-byte+synthetic', small))
+            small += [(e, cp) for e in ev]
+    step = 40000
+    for i in range(0, len(small), step):
+        batches.append(('single-byte+synthetic.%d' % (i // step), small_tables, small[i:i + step], None))
     ctx.cov['impl_wall_s'] = round(time.time() - t0, 1)
-    header = {'cps': tables}
-    nb = sum(len(ev) for _, ev in batches)
 
     def judge(b):
-        name, ev = b
-        out = []
-        step = 120000
-        for i in range(0, len(ev), step):
-            part = ev[i:i + step]
-            out += [(i + j, cl) for (j, cl) in ctx.validate('Codepage_Trace', part, header=header, name='cp_' + name + str(i))]
-        return name, ev, out
+        name, tabs, ev, cp = b
+        evs = ev if cp else [e for e, _ in ev]
+        return b, ctx.validate('Codepage_Trace', evs, header={'cps': tabs}, name='cp_' + name)
 
-    with ThreadPoolExecutor(max_workers=ctx.pick(4, 6)) as ex:
+    batches.sort(key=lambda b: -len(b[2]))
+    with ThreadPoolExecutor(max_workers=ctx.pick(6, 8)) as ex:
         results = list(ex.map(judge, batches))
     kinds = {'b': 0, 'u': 0, 'c': 0}
-    for name, ev, verdicts in results:
-        for e in ev:
+    for (name, tabs, ev, cp1), verdicts in results:
+        pairs = [(e, cp1) for e in ev] if cp1 else ev
+        for e, cp in pairs:
             kinds[e['o']] += 1
             if e['o'] == 'b':
-                ctx.count([e['c'], 'b', e['q'], e['box'], e['sub']], nontrivial=bool(e['u']))
+                ctx.count([cp.name, 'b', e['q'], e['box'], e['sub']], nontrivial=bool(e['u']))
             elif e['o'] == 'u':
-                ctx.count([e['c'], 'u', e['u'], e['box'], e['sub']])
+                ctx.count([cp.name, 'u', e['u'], e['box'], e['sub']])
             else:
-                ctx.count([e['c'], 'c', e['chunks'], e['box'], e['sub'], e['pres']])
+                ctx.count([cp.name, 'c', e['chunks'], e['box'], e['sub'], e['pres']])
         for (i, clause) in verdicts:
-            e = ev[i - 1]
-            cpn = cplist[e['c'] - 1].name
+            e, cp = pairs[i - 1]
+            cpn = cp.name
             if clause == 'harness_cluster_not_in_repertoire':
                 raise core.MachineryError('harness enumerated a cluster outside the repertoire: %r' % (e,))
             inp = e.get('q') or e.get('u') or e.get('chunks')
@@ -259,9 +264,10 @@ def run(ctx):
                      'input': inp if e['o'] != 'c' else None}, data=e)
     ctx.cov['traces_validated_against_impl'] += len(batches)
     ctx.cov['events_by_kind'] = kinds
-    for name, ev, _ in results[:2]:
-        ctx.sample({k: v for k, v in ev[300].items()})
-        ctx.sample({k: v for k, v in ev[-1].items()})
+    for (name, tabs, ev, cp1), _ in results[:3]:
+        if cp1:
+            ctx.sample(dict(ev[300], codepage=cp1.name))
+            ctx.sample(dict(ev[-1], codepage=cp1.name))
     if kinds['c'] == 0 or kinds['u'] < 10000 or kinds['b'] < 100000:
         raise core.MachineryError('vacuous: too few events %r' % kinds)
     ctx.assumptions += ['clusters are compared in NFC form (unicodedata.normalize), as the code stores them',
